@@ -30,14 +30,12 @@ import (
 const deadline = 8 * time.Second
 
 // ---------------------------------------------------------------------------------------------
-// raw backend: every accepted connection is handed to whoever waits for it (matched by a tunnel id sent first)
+// raw backend: a plain TCP listener; every accepted connection is handed to the tunnel that is connecting
 
 type rawBackend struct {
 	ln   net.Listener
 	port int
-	mu   sync.Mutex
-	wait map[string]chan net.Conn // websocket: keyed by the X-Tunnel header; stream: keyed by the first 8 payload bytes... see below
-	anon chan net.Conn            // stream tunnels: connections in accept order (stream tunnels of one case are started one by one)
+	anon chan net.Conn // accepted connections in accept order (the tunnels of one case connect one by one, see runTunnel)
 }
 
 func newRawBackend() *rawBackend {
@@ -436,9 +434,9 @@ func size(r *hv.Rng) int {
 	case 2:
 		return r.Range(2, 16)
 	case 3:
-		return r.Range(200, 700)
+		return r.Range(120, 300)
 	default:
-		return r.Range(1, 120)
+		return r.Range(1, 60)
 	}
 }
 
@@ -484,10 +482,14 @@ func gen(r *hv.Rng, i int, tier string) (string, hv.Val) {
 		return "triv-malformed", bad[r.Intn(len(bad))]
 	}
 	n := r.Range(2, 4)
+	big := i%20 == 3
+	if big {
+		n = 1
+	}
 	ts := hv.L{}
 	class := ""
 	for k := 0; k < n; k++ {
-		t, c := genTunnel(r, i%9 == 3 && k == 0)
+		t, c := genTunnel(r, big)
 		ts = append(ts, t)
 		if k == 0 {
 			class = c
@@ -497,7 +499,7 @@ func gen(r *hv.Rng, i int, tier string) (string, hv.Val) {
 }
 
 func main() {
-	hv.Main(&hv.Spec{Prop: "C47", Gen: gen, Impl: impl, NQuick: 90, NThorough: 5000})
+	hv.Main(&hv.Spec{Prop: "C47", Gen: gen, Impl: impl, NQuick: 64, NThorough: 4000})
 	e2e.RemoveAll()
 	os.Stdout.Sync()
 }
